@@ -538,8 +538,8 @@ class TypeManager(object):
                         myty = self.FunctionType(return_type, param_types)
                     else:
                         # Custom Type
-                        typedecl = self.Type(assert_not_none(type_.basename), type_.arity)
-                        new_args = tuple(typemap[a] for a in assert_not_none(type_.args))
+                        typedecl = self.Type(assert_not_none(ty.basename), ty.arity)
+                        new_args = tuple(typemap[a] for a in assert_not_none(ty.args))
                         myty = self.get_type_instance(typedecl, *new_args)
                     typemap[ty] = myty
         return typemap[type_]
